@@ -42,6 +42,10 @@ func NewNoMixConstraint(
 	insert := make(map[ModelStop]MixItem, len(deltas)/2)
 	remove := make(map[ModelStop]MixItem, len(deltas)/2)
 	for stop, delta := range deltas {
+		if delta.Quantity == 0 {
+			// Nothing is inserted or removed, the stop has no mix item.
+			continue
+		}
 		if delta.Quantity > 0 {
 			insert[stop] = MixItem{
 				Name:     delta.Name,
